@@ -473,7 +473,9 @@ func (g *gen) writeCall(e *emitter, k int, ind string) {
 				}
 			}
 			forms := []string{"r := \x00(a)", "r := \x00(\n%Ja\n%I)", "r := 1 + \x00(a)", "if \x00(a) == -99 {\n%Ja = 0\n%I}", "\x00(a)",
-				"r := [0,\n%J\x00(a),\n%J2]", "r := {k: \x00(a)}", "a = \x00(a) + 0", "r := [\x00(a)][0]"}
+				"r := [0,\n%J\x00(a),\n%J2]", "r := {k: \x00(a)}", "a = \x00(a) + 0", "r := [\x00(a)][0]",
+				// the callee is a COPY of the function object (O33: the copy had no source map)
+				"r := copy(\x00)(a)", "r := copy([\x00])[0](a)"}
 			if isFunc {
 				forms = append(forms, "return \x00(a) + 0", "return \x00(a)", "return [a,\n%J\x00(a)]")
 			}
